@@ -203,11 +203,9 @@ func GetNode(children []*Node, path string) (*Node, bool) {
 	pathSplit := strings.SplitN(path, "/", 2)
 	searchName := pathSplit[0]
 
-	left := 0
-	right := len(children)
-	for {
-		middle := (left + right) / 2
-		node := children[middle]
+	// children are stored in the order of the index (byte order of the full paths), which is not
+	// the byte order of the names ("d." sorts before "d/x" but after "d"), so search linearly
+	for _, node := range children {
 		if node.Name == searchName {
 			if len(node.Children) == 0 {
 				return node, true
@@ -217,14 +215,6 @@ func GetNode(children []*Node, path string) (*Node, bool) {
 			} else {
 				return node, true
 			}
-		} else if node.Name < searchName {
-			left = middle + 1
-		} else {
-			right = middle
-		}
-
-		if right-left < 1 {
-			break
 		}
 	}
 
